@@ -12,7 +12,7 @@ for ((s=first; s<first+n; s++)); do
       echo "### seed=$s prop=$p rc=$rc"
       echo "$out" | grep -E "VIOLATION|oracle=|HARNESS|Error" | head -8 | cut -c1-400
       # keep the replay files of this snapshot run
-      mkdir -p soak_replays; cp -r replays/selftest/${p}-${s}-* soak_replays/ 2>/dev/null
+      for f in replays/selftest/${p}-${s}-*.json; do echo "REPLAY-FILE $f"; /venv/bin/python -c "import json,sys;print(json.dumps(json.load(open(sys.argv[1]))))" $f; done 2>/dev/null
     fi
   done
   echo "seed $s done $(date +%H:%M:%S)"
